@@ -19,6 +19,7 @@ import Bmc.Driver.Enum
 import Bmc.Driver.Time
 import Bmc.Driver.Conc
 import Bmc.Driver.Api
+import Bmc.Driver.BmcSpec
 open Bmc.Driver
 
 def decTables : List (String × DecFn) := decTableBasic ++ decTableCore ++ decTableSess ++ decTableDcmi ++ decTableSdr ++ decTableSetup
@@ -60,6 +61,8 @@ def step (line : String) : String :=
   | id :: _cls :: "time" :: args => s!"{id} {evalTime args}"
   | id :: _cls :: "conc" :: args => s!"{id} {evalConc args}"
   | id :: _cls :: "api" :: args => s!"{id} {evalApi args}"
+  | id :: _cls :: "bmcopen" :: args => s!"{id} {evalBmcOpen args}"
+  | id :: _cls :: "bmcseal" :: args => s!"{id} {evalBmcSeal args}"
   | id :: _ => s!"{id} bad-op"
   | [] => ""
 
